@@ -477,4 +477,129 @@ theorem chain_evs : ∀ (rest : List Cell) (d : Date), ChainFrom d rest →
     · exact Date.lt_trans' hdc (ih2 x hx)
 
 
+
+/-! ## refusals -/
+
+theorem Date.pred_succ {d : Date} (h : d.valid = true) : d.succ.pred = d := by
+  obtain ⟨y, m, dd⟩ := d
+  simp only [Date.valid, Bool.and_eq_true, decide_eq_true_eq] at h
+  obtain ⟨⟨⟨h1, h2⟩, h3⟩, h4⟩ := h
+  unfold Date.succ
+  by_cases hd : dd < dim y m
+  · simp only [hd, if_true]
+    unfold Date.pred
+    have : dd + 1 > 1 := by omega
+    simp only [this, if_true]
+    congr
+  · have hdd : dd = dim y m := by omega
+    simp only [hd, if_false]
+    by_cases hm : m < 12
+    · simp only [hm, if_true]
+      unfold Date.pred
+      have : m + 1 > 1 := by omega
+      simp only [gt_iff_lt, Nat.lt_irrefl, if_false, this, if_true]
+      congr 1
+      simp [hdd]
+    · have hm12 : m = 12 := by omega
+      subst hm12
+      simp only [Nat.lt_irrefl, if_false]
+      unfold Date.pred
+      simp only [gt_iff_lt, Nat.lt_irrefl, if_false]
+      congr 1
+      · omega
+      · rw [hdd]; simp [dim]
+
+theorem mapM_error_of_all {α β} {f : α → Except Err β} {e : Err} : ∀ (l : List α),
+    (∀ a ∈ l, (∃ b, f a = .ok b) ∨ f a = .error e) → (∃ a ∈ l, f a = .error e) →
+    l.mapM f = .error e
+  | [], _, h => by obtain ⟨a, ha, _⟩ := h; cases ha
+  | a :: l, hall, hex => by
+    rw [List.mapM_cons]
+    rcases hall a (by simp) with ⟨b, hb⟩ | he
+    · have : ∃ a' ∈ l, f a' = .error e := by
+        obtain ⟨a', ha', hf⟩ := hex
+        rcases List.mem_cons.mp ha' with rfl | ha'
+        · rw [hb] at hf; cases hf
+        · exact ⟨a', ha', hf⟩
+      rw [hb, mapM_error_of_all l (fun x hx => hall x (List.mem_cons_of_mem _ hx)) this]
+      rfl
+    · rw [he]; rfl
+
+/-- a broken link inside the row: `to_cumulative`'s loop raises `TriangleError` -/
+theorem cumPairs_error_of_broken (k : RowKey) : ∀ (rest : List Cell) (px pc : Cell),
+    IncRow k (px :: rest) → pc.values.map (·.1) = px.values.map (·.1) → TyEq pc.values px.values →
+    ¬ ChainFrom pc.ev rest → cumPairs k pc.ev pc.values rest = .error .triangleError
+  | [], _, _, _, _, _, hb => absurd trivial hb
+  | x :: rest, px, pc, h, hkeys, hty, hb => by
+    by_cases hp : x.prev = some pc.ev
+    · have hb' : ¬ ChainFrom x.ev rest := fun hc => hb ⟨hp, hc⟩
+      have hkx : rowKey x = k := h.key x (by simp)
+      have hdx := h.dates x (by simp)
+      have hps : k.1.1 = x.ps := by rw [← hkx]; rfl
+      have hpe : k.1.2 = x.pe := by rw [← hkx]; rfl
+      have hsk : sameKeys pc.values x.values = true := by
+        rw [sameKeys_congr hkeys rfl]; exact (List.pairwise_cons.mp h.keys).1 x (by simp)
+      have hcomp : DictCompat pc.values x.values := by
+        intro kv hkv hns
+        obtain ⟨τ, h1, h2⟩ := (List.pairwise_cons.mp h.compat).1 x (by simp) kv hkv hns
+        exact ⟨τ, by rw [hty kv.1 hns]; exact h1, h2⟩
+      obtain ⟨v, hv1, _, hv3, hv4⟩ := valuesAdd_diff hsk hcomp
+      let c : Cell := { kind := .cumulative, ps := k.1.1, pe := k.1.2, ev := x.ev, md := k.2, values := v }
+      have hc : c.datesOk = true := by
+        have := datesOk_base hdx
+        simp only [Cell.datesOk, c, hps, hpe]
+        simp only [Bool.and_eq_true] at this ⊢
+        exact ⟨this, trivial⟩
+      have ih : cumPairs k x.ev v rest = .error .triangleError :=
+        cumPairs_error_of_broken k rest x c h.tail hv3 hv4 hb'
+      have hp' : (x.prev != some pc.ev) = false := by simp [hp]
+      simp only [cumPairs, hp', Bool.false_eq_true, if_false, hv1, bind, Except.bind, Cell.mk?]
+      have : ({ kind := .cumulative, ps := k.1.1, pe := k.1.2, ev := x.ev, md := k.2,
+                values := v } : Cell) = c := rfl
+      rw [this, if_pos hc]
+      simp only [ih]
+    · have hp' : (x.prev != some pc.ev) = true := by simpa using hp
+      simp [cumPairs, hp']
+
+/-- **row level refusal**: a consistent incremental row that is not a complete chain (its first cell
+does not start the day before the period, or some cell does not link to the evaluation date before
+it) is refused with `TriangleError` -/
+theorem cumRow_error_of_broken {k : RowKey} {x0 : Cell} {rest : List Cell} (h : IncRow k (x0 :: rest))
+    (hv : k.1.1.valid = true) (hpv : ∀ p, x0.prev = some p → p.valid = true)
+    (hb : ¬ (x0.prev = some k.1.1.pred ∧ ChainFrom x0.ev rest)) :
+    cumRow k (x0 :: rest) = .error .triangleError := by
+  have hk0 : rowKey x0 = k := h.key x0 (by simp)
+  have hd0 := h.dates x0 (by simp)
+  have hps : k.1.1 = x0.ps := by rw [← hk0]; rfl
+  have hpe : k.1.2 = x0.pe := by rw [← hk0]; rfl
+  by_cases hf : x0.prev = some k.1.1.pred
+  · have hb' : ¬ ChainFrom x0.ev rest := fun hc => hb ⟨hf, hc⟩
+    let c0 : Cell := { kind := .cumulative, ps := k.1.1, pe := k.1.2, ev := x0.ev, md := k.2,
+                       values := x0.values }
+    have hc : c0.datesOk = true := by
+      have := datesOk_base hd0
+      simp only [Cell.datesOk, c0, hps, hpe]
+      simp only [Bool.and_eq_true] at this ⊢
+      exact ⟨this, trivial⟩
+    have herr : cumPairs k x0.ev x0.values rest = .error .triangleError :=
+      cumPairs_error_of_broken k rest x0 c0 h rfl (fun _ _ => rfl) hb'
+    have hchk : ((x0.prev.map Date.succ) != some x0.ps) = false := by
+      rw [hps] at hv
+      simp [hf, hps, Date.succ_pred hv]
+    simp only [cumRow, hchk, Bool.false_eq_true, if_false, bind, Except.bind, Cell.mk?]
+    have : ({ kind := .cumulative, ps := k.1.1, pe := k.1.2, ev := x0.ev, md := k.2,
+              values := x0.values } : Cell) = c0 := rfl
+    rw [this, if_pos hc]
+    simp only [herr]
+  · have hchk : ((x0.prev.map Date.succ) != some x0.ps) = true := by
+      cases hprev : x0.prev with
+      | none => simp
+      | some p =>
+        simp only [Option.map_some, bne_iff_ne, ne_eq, Option.some.injEq]
+        intro e
+        apply hf
+        rw [hprev, hps, ← e, Date.pred_succ (hpv p hprev)]
+    simp [cumRow, hchk]
+
+
 end Bermuda
